@@ -47,17 +47,19 @@ BOUNDS = {
                                  'rendering (start atoms x neighbour order x ring-digit mode x ring-symbol placement x '
                                  'descriptor position x descriptor kind)',
         'block2_exhaustive_molecules': 'every molecule with <= 3 heavy atoms over C N O S P F Cl Br [N+] [O-] [S-] and with 4 '
-                                       'heavy atoms over C N O (trees and one ring, bond orders 1-3), every partition, 3 covering renderings each',
+                                       'heavy atoms over C N O (trees and one ring, bond orders 1-3), every partition, covering renderings: 3 for 2 atoms, 2 for 3 atoms, 1 for 4 atoms',
+        'block5_multi_cut': 'ladder molecules with 2, 3, 4 cut bonds between one pair of fragments (single and double rungs), 2 partitions, 4 renderings',
         'block3_library': '43 larger molecules x <= 10 seeded partitions x 2 renderings',
         'block4_base_orders': 'molecules <= 3 heavy atoms over C N O, partitions into 2-3 fragments, every base-graph node '
                               'order, from_string and from_graph',
-        'cut_bonds_between_a_pair': '0..4 (3 and 4 only in block 3 ring-rich molecules)'},
+        'cut_bonds_between_a_pair': '0..4 (3 and 4 in blocks 3 and 5)'},
     'thorough': {
         'block1_all_renderings': 'as quick plus every C N O molecule with <= 3 heavy atoms',
         'block2_exhaustive_molecules': '<= 4 heavy atoms over the full alphabet (8 renderings up to 3 atoms, 3 for 4 atoms), 5 heavy atoms over '
                                        'C N O (2 renderings)',
         'block3_library': '43 larger molecules x <= 40 seeded partitions x 4 renderings',
         'block4_base_orders': 'molecules <= 4 heavy atoms over C N O, partitions into 2-3 fragments, every base-graph node order, both constructors',
+        'block5_multi_cut': 'as quick with 12 renderings',
         'cut_bonds_between_a_pair': '0..4'},
 }
 EXHAUSTIVE = {'quick': False, 'thorough': False}
@@ -131,8 +133,15 @@ def cases(tier, seed):
                 r['base'] = base
                 r['ctor'] = 'graph' if i % 3 == 2 else 'string'
                 yield {'fam': 'b3', 'smiles': smi, 'mol': mol, 'part': part, 'r': r}
+    # ---- block 5: 2, 3 and 4 cut bonds between one pair of fragments (ladders), some of them double
+    for mol, part in g2.multi_cut_descriptions():
+        nf = max(part) + 1
+        for i, r in enumerate(g2.covering_renderings(mol, part, 4 if quick else 12, rng)):
+            r['base'] = list(range(nf)) if i % 2 == 0 else list(range(nf))[::-1]
+            r['ctor'] = 'graph' if i % 4 == 3 else 'string'
+            yield {'fam': 'b5', 'mol': mol, 'part': part, 'r': r}
     # ---- block 2: exhaustive molecules x all partitions x covering renderings
-    plan = [(1, g2.ALPHA_FULL, 1), (2, g2.ALPHA_FULL, 3), (3, g2.ALPHA_FULL, 3), (4, g2.ALPHA_CNO, 3)] if quick else \
+    plan = [(1, g2.ALPHA_FULL, 1), (2, g2.ALPHA_FULL, 3), (3, g2.ALPHA_FULL, 2), (4, g2.ALPHA_CNO, 1)] if quick else \
            [(1, g2.ALPHA_FULL, 1), (2, g2.ALPHA_FULL, 8), (3, g2.ALPHA_FULL, 8), (4, g2.ALPHA_FULL, 3), (5, g2.ALPHA_CNO, 2)]
     for n, alpha, k in plan:
         for mol in g2.small_molecules(n, alpha):
